@@ -9,6 +9,7 @@ import (
 	"sort"
 	"strings"
 	"testing"
+	"time"
 	"unsafe"
 
 	"github.com/hashicorp/memberlist"
@@ -31,6 +32,7 @@ type Op struct {
 	Overhead int    `json:",omitempty"`
 	Limit    int    `json:",omitempty"`
 	K        int    `json:",omitempty"` // prune retain
+	Hook     string `json:",omitempty"` // queue: when this broadcast completes, another goroutine calls requeue | reset | prune while the callback is still running
 	N        int    `json:",omitempty"` // setn value
 }
 
@@ -58,6 +60,10 @@ func genOp(t *rapid.T) Op {
 		case "plain":
 			o.Tag = rapid.IntRange(0, 2).Draw(t, "tag")
 			o.InvTag = rapid.IntRange(-1, 2).Draw(t, "inv")
+		}
+		if rapid.IntRange(0, 5).Draw(t, "hooked") == 0 {
+			o.Hook = rapid.SampledFrom([]string{"requeue", "requeue", "reset", "prune"}).Draw(t, "hook")
+			o.K = rapid.IntRange(0, 3).Draw(t, "hk")
 		}
 		return o
 	case "get":
@@ -90,10 +96,16 @@ type bcast struct {
 	tag, inv int
 	msg      []byte
 	finished int
+	onFinish func()
 }
 
 func (b *bcast) Message() []byte { return b.msg }
-func (b *bcast) Finished()       { b.finished++ }
+func (b *bcast) Finished() {
+	b.finished++
+	if b.onFinish != nil {
+		b.onFinish()
+	}
+}
 
 type named struct{ *bcast }
 
@@ -274,7 +286,88 @@ func runPlan(p Plan) (res vfx.Result) {
 	reinsertedEarlier := false
 	nontrivial := false
 
+	// A completion callback may take its time, and other goroutines may use the queue meanwhile. The first hooked
+	// broadcast that completes starts a goroutine that calls into the queue and gives it 2 ms; a queue that is
+	// consistent at every point where it lets another caller in behaves as if that call came after the operation
+	// that ran the callback, which is where the model applies it.
+	type pending struct {
+		kind string
+		k    int
+		b    *bcast
+		mb   memberlist.Broadcast
+		done chan error
+	}
+	var pend *pending
+	armed := true
+	hook := func(kind string, k int, name string) func() {
+		return func() {
+			if !armed {
+				return
+			}
+			armed = false
+			pd := &pending{kind: kind, k: k, done: make(chan error, 1)}
+			if kind == "requeue" {
+				seq++
+				pd.b = &bcast{seq: seq, kind: "named", name: name}
+				pd.b.msg = make([]byte, 7, 16)
+				pd.mb = named{pd.b}
+			}
+			pend = pd
+			slipped := make(chan struct{})
+			go func() {
+				pd.done <- vfx.Guard(func() error {
+					switch kind {
+					case "requeue":
+						q.QueueBroadcast(pd.mb)
+					case "reset":
+						q.Reset()
+					case "prune":
+						q.Prune(k)
+					}
+					return nil
+				})
+				close(slipped)
+			}()
+			select {
+			case <-slipped:
+				labels["hook-ran-inside-callback"] = true
+			case <-time.After(2 * time.Millisecond):
+			}
+		}
+	}
+	settle := func(step string) error {
+		if pend == nil {
+			return nil
+		}
+		pd := pend
+		pend = nil
+		select {
+		case err := <-pd.done:
+			if err != nil {
+				return fmt.Errorf("%s: the %s issued from another goroutine during a completion callback failed: %v", step, pd.kind, err)
+			}
+		case <-time.After(20 * time.Second):
+			return fmt.Errorf("%s: the %s issued from another goroutine during a completion callback has not returned 20 s after the operation that ran the callback", step, pd.kind)
+		}
+		labels["hook:"+pd.kind] = true
+		nontrivial = true
+		switch pd.kind {
+		case "requeue":
+			m.queue(pd.b)
+			allB = append(allB, pd.b)
+			byPtr[ptr(pd.b.msg)] = m.items[len(m.items)-1]
+		case "reset":
+			m.reset()
+		case "prune":
+			m.prune(pd.k)
+		}
+		return nil
+	}
+
 	check := func(step string) error {
+		if err := settle(step); err != nil {
+			return err
+		}
 		if got := q.NumQueued(); got != len(m.items) {
 			return fmt.Errorf("%s: NumQueued()=%d, model holds %d %s", step, got, len(m.items), desc(m.items))
 		}
@@ -379,6 +472,13 @@ func runPlan(p Plan) (res vfx.Result) {
 				for j := range b.msg {
 					b.msg[j] = byte(seq)
 				}
+				if op.Hook != "" {
+					hn := op.Name
+					if op.BKind != "named" || hn == "" {
+						hn = "a"
+					}
+					b.onFinish = hook(op.Hook, op.K, hn)
+				}
 				var mb memberlist.Broadcast
 				switch op.BKind {
 				case "named":
@@ -433,6 +533,7 @@ func runPlan(p Plan) (res vfx.Result) {
 		}
 		// Final drain with a constant cluster size: every survivor is handed
 		// out until its limit, then Finished exactly once.
+		armed = false // the drain counts hand-outs; nothing else touches the queue from here on
 		lim := limitFor(p.Mult, n)
 		handed := map[*bcast]int{}
 		start := map[*bcast]int{}
